@@ -83,6 +83,9 @@ def repo_programs():
         out.append((f"mod_scripts/{f.stem}", mods))
     for f in sorted((core.VERIF / "corpus" / "programs").glob("*.py")):
         out.append((f"corpus/{f.stem}", f.read_text(encoding="utf-8")))
+    # multi-module programs: {"": main text, "<library>": text}
+    for f in sorted((core.VERIF / "corpus" / "programs").glob("*.json")):
+        out.append((f"corpus/{f.stem}", json.loads(f.read_text(encoding="utf-8"))))
     return out
 
 
